@@ -872,6 +872,8 @@ def step (st : St) (line : String) : St × String :=
     else if mode.contains '+' then (st, doOrderStages st kind dir root method (mode.splitOn "+"))
     else (st, doOrder st kind dir root method mode)
   | ["iter", which, u, script] => doIter st which u script
+  -- the same loop driven by the iterator's internal iteration (`for_each`): the same sequence of `next` calls
+  | ["iter", which, u, script, "fold"] => doIter st which u script
   | ["macro", arg] => doMacro st arg
   | ["cmp", k1, v1, k2, v2] => match k1.toNat?, v1.toInt?, k2.toNat?, v2.toInt? with
     | some k1, some v1, some k2, some v2 => (st, doCmp k1 v1 k2 v2)
